@@ -10,10 +10,14 @@ where `pyramid` is imported from, otherwise nothing is recognised) on one scratc
   factory-raises   GET /x/1      the route's factory raises ValueError -> route-bound exception view
   not-found        GET /zz       nothing registered -> HTTPNotFound -> notfound view
   undecodable      PATH_INFO /\\xff -> URLDecodeError -> global exception view
+  marked-at-context-found  GET /a/m  a ContextFound subscriber marks the context with a marker interface (`alsoProvides`);
+                   the only view named `m` is registered for that marker -> it must be found: the lookup classifies the
+                   context AFTER the ContextFound subscribers ran
 
 Logging subscribers (NewRequest, BeforeTraversal, ContextFound), logging root / route factories and a logging `ITraverser`
 adapter record, at each event, `matched_route`, `matchdict`, `request_iface.__sro__`, `root`, `context`, `view_name` as the
-request carries them AT THAT MOMENT; the outcome is the tag of the answering view (or the class of the exception leaving the
+request carries them AT THAT MOMENT, and what the context PROVIDES at that moment (`providedBy(context).__sro__`, read by the
+probe through zope.interface, not taken from the router); the outcome is the tag of the answering view (or the class of the exception leaving the
 router) and the class of the exception a tween under the excview tween saw passing.  The table is emitted as Lean data and
 `Props/X01.lean: probed_router_matches_model` `decide`s it against the composed model run on the same application.
 Fail closed: an exception while probing, a foreign `pyramid`, or an unexpected value yields `ownTree := false` / an empty
@@ -36,7 +40,8 @@ def _probe(src_root):
     own = os.path.realpath(os.path.dirname(pyramid.__file__)).startswith(os.path.realpath(src_root))
     if not own:
         return False, []
-    from zope.interface import Interface
+    from zope.interface import Interface, alsoProvides, noLongerProvides, providedBy, implementedBy
+    from zope.interface.interface import InterfaceClass
     from pyramid.config import Configurator
     from pyramid.events import NewRequest, BeforeTraversal, ContextFound
     from pyramid.exceptions import URLDecodeError
@@ -64,6 +69,14 @@ def _probe(src_root):
         return r
     roots = [tree(0, 'a'), tree(1, 'b')]
     names = ['rt0', 'rt1', 'rt2']
+    IMark = InterfaceClass('IMark', (Interface,), __doc__='probe marker')
+
+    def provides_ids(ctx):
+        out = []
+        for sp in providedBy(ctx).__sro__:
+            out.append(0 if sp is Interface else 3 if sp is IMark else 10 if sp is implementedBy(Root) else
+                       11 if sp is implementedBy(A) else 90)
+        return out
 
     def iface_id(config, i):
         if i is IRequest:
@@ -89,7 +102,8 @@ def _probe(src_root):
                     [] if riface is None else [iface_id(state['config'], i) for i in riface.__sro__],
                     None if root is None else root._pos[0],
                     None if ctx is None else list(ctx._pos[1]),
-                    d.get('view_name')))
+                    d.get('view_name'),
+                    [] if ctx is None else provides_ids(ctx)))
 
     def factory(i, hook, raises=None):
         def f(request):
@@ -130,6 +144,10 @@ def _probe(src_root):
     state['config'] = config
     config.add_tween(__name__ + '.under_factory', under=EXCVIEW)
     config.add_traverser(LoggingTraverser)
+    def mark(event):
+        if event.request.environ.get('x01.mark'):
+            alsoProvides(event.request.context, IMark)
+    config.add_subscriber(mark, ContextFound)                  # registered BEFORE the logging subscriber
     for ev, nm in ((NewRequest, 'NewRequest'), (BeforeTraversal, 'BeforeTraversal'), (ContextFound, 'ContextFound')):
         config.add_subscriber((lambda event, nm=nm: snap(nm, event.request)), ev)
     config.add_route('rt0', '/r/{id}', factory=factory(1, 'routefactory'))
@@ -140,15 +158,22 @@ def _probe(src_root):
     config.add_exception_view(mk(3), context=ValueError, route_name='rt2')
     config.add_notfound_view(mk(4))
     config.add_exception_view(mk(5), context=URLDecodeError)
+    config.add_view(mk(6), context=IMark, name='m')
     app = config.make_wsgi_app()
 
     table = []
     for name, raw in (('traversal', b'/a/v'), ('route-factory', b'/r/7'), ('route-traverse', b'/t/a/v'),
-                      ('factory-raises', b'/x/1'), ('not-found', b'/zz'), ('undecodable', b'/\xff')):
+                      ('factory-raises', b'/x/1'), ('not-found', b'/zz'), ('undecodable', b'/\xff'),
+                      ('marked-at-context-found', b'/a/m')):
         del log[:]
         state.pop('caught', None)
         env = Request.blank('/').environ
         env['PATH_INFO'] = raw.decode('latin-1')
+        env['x01.mark'] = name == 'marked-at-context-found'
+        for r in roots:
+            for n in [r] + list(r.values()):
+                if IMark.providedBy(n):
+                    noLongerProvides(n, IMark)
         sh = {}
 
         def start_response(status, headers, exc_info=None):
@@ -226,10 +251,11 @@ def _on(x):
 
 
 def _lean_step(st):
-    ev, route, md, iface, root, ctx, vn = st
-    return '⟨%s, %s, [%s], [%s], %s, %s, %s⟩' % (
+    ev, route, md, iface, root, ctx, vn, prov = st
+    return '⟨%s, %s, [%s], [%s], %s, %s, %s, [%s]⟩' % (
         _s(ev), _on(route), ', '.join('(%s, %s)' % (_s(k), _s(v)) for k, v in md), ', '.join(str(i) for i in iface), _on(root),
-        'none' if ctx is None else '(some [%s])' % ', '.join(_s(c) for c in ctx), 'none' if vn is None else '(some %s)' % _s(vn))
+        'none' if ctx is None else '(some [%s])' % ', '.join(_s(c) for c in ctx), 'none' if vn is None else '(some %s)' % _s(vn),
+        ', '.join(str(i) for i in prov))
 
 
 def generate(src_root):
@@ -258,7 +284,9 @@ def generate(src_root):
             '/-- an observed event: (hook, matched_route, matchdict, request_iface.__sro__, root, context, view_name) as the request\n'
             'carries them at that moment -/\n'
             'structure Step where\n  hook : String\n  route : Option Nat\n  matchdict : List (String × String)\n  iface : List Nat\n'
-            '  root : Option Nat\n  context : Option (List String)\n  viewName : Option String\nderiving DecidableEq, Repr\n\n'
+            '  root : Option Nat\n  context : Option (List String)\n  viewName : Option String\n'
+            '  /-- `providedBy(context).__sro__` at that moment (0 Interface, 3 the marker, 10 Root, 11 A, 90 other) -/\n  provides : List Nat\n'
+            'deriving DecidableEq, Repr\n\n'
             '/-- scenario ↦ events in the order observed, outcome (view tag / status / class id of the exception leaving the router),\n'
             'class id of the exception the excview tween caught -/\n'
             'def probed : List (String × List Step × (String × Nat) × Option Nat) := [\n%s]\n\n'
